@@ -350,6 +350,39 @@ def m_mem_replace(ex, n, a, f):
     return old
 
 
+# atomics of the single modelled thread: plain loads and stores (orderings are irrelevant without a second thread)
+@model(r'^std::intrinsics::atomic_(load|store|xchg|xadd|xsub|and|or|xor|fence|singlethreadfence|cxchg|cxchgweak)(::<.*)?$')
+def m_atomic(ex, n, a, f):
+    op = re.search(r'atomic_(\w+?)(::<|$)', n).group(1)
+    if op in ('fence', 'singlethreadfence'):
+        return UNIT
+    r = a[0]
+    old = ex.load_raw(r.cell, r.path)
+    if op == 'load':
+        return old
+    if op == 'store':
+        ex.store_path(r.cell, r.path, a[1])
+        return UNIT
+    if op == 'xchg':
+        ex.store_path(r.cell, r.path, a[1])
+        return old
+    if op in ('cxchg', 'cxchgweak'):
+        eq = ex.branch(old == a[1], 'atomic-cxchg') if not (isinstance(old, (int, bool)) and isinstance(a[1], (int, bool))) else old == a[1]
+        if eq:
+            ex.store_path(r.cell, r.path, a[2])
+        return Tup([old, bool(eq)])
+    k = ex.p.kind(ex.p.inst_ret(f)) if hasattr(ex.p, 'inst_ret') else None
+    bits = k[1] if k and k[0] == 'int' else 64
+    if isinstance(old, int) and isinstance(a[1], int):
+        mask = (1 << bits) - 1
+        new = {'xadd': old + a[1], 'xsub': old - a[1], 'and': old & a[1], 'or': old | a[1], 'xor': old ^ a[1]}[op] & mask
+    else:
+        x, y = to_bv(old, bits), to_bv(a[1], bits)
+        new = {'xadd': x + y, 'xsub': x - y, 'and': x & y, 'or': x | y, 'xor': x ^ y}[op]
+    ex.store_path(r.cell, r.path, new)
+    return old
+
+
 @model(r'^std::mem::swap::<', r'^core::mem::swap::<')
 def m_mem_swap(ex, n, a, f):
     x, y = a
@@ -2166,11 +2199,18 @@ def m_sort(ex, n, a, f):
 @model(r'^std::vec::Vec::<.*>::dedup$')
 def m_vec_dedup(ex, n, a, f):
     v = ex.deref(a[0])
+    try:
+        keys = [sort_key(ex, c.v) for c in v.cells]
+    except Unsupported:
+        # elements without a concrete scalar key (structs, enums): the real body (dedup_by with the type's PartialEq)
+        return NotImplemented
     out = []
-    for c in v.cells:
-        if out and sort_key(ex, out[-1].v) == sort_key(ex, c.v):
+    last = None
+    for c, k in zip(v.cells, keys):
+        if out and last == k:
             continue
         out.append(c)
+        last = k
     v.cells[:] = out
     return UNIT
 
